@@ -145,7 +145,12 @@ fn g_format(_a: core::fmt::Arguments<'_>) -> String { String::new() }
 fn mk_map(start: u64, end: u64, perms: MMPermissions, offset: u64, path: MMapPath) -> procfs_core::process::MemoryMap {
     procfs_core::process::MemoryMap {
         address: (start, end), perms, offset, dev: (0, 0), inode: 0, pathname: path,
-        extension: unsafe { core::mem::zeroed() },
+        // all-zero bytes: an empty table with bucket_mask 0 (never allocated, never freed); HashMap::default()
+        // would call getrandom, which Kani does not model
+        extension: unsafe {
+            const N: usize = core::mem::size_of::<procfs_core::process::MMapExtension>();
+            core::mem::transmute::<[u8; N], procfs_core::process::MMapExtension>([0u8; N])
+        },
     }
 }
 fn mk_maps(v: Vec<procfs_core::process::MemoryMap>) -> MemoryMaps {
